@@ -2,7 +2,7 @@
 //! helgoboss-midi, drives the shadow instances (solo, filtered twin, fresh twin, fork copies) and
 //! runs every history observer. All calls into the crate are API regions (apimon).
 
-use crate::apimon::{self, api, api_expect_panic, Panicked, L};
+use crate::apimon::{self, api, api_expect_panic, api_on, Panicked, L};
 use crate::oracles::*;
 use crate::probes::Probes;
 use crate::rules::*;
@@ -100,9 +100,14 @@ fn default_scn(timeout: Duration) -> Result<Scn, Panicked> {
 }
 
 fn feed_scn(s: &mut Scn, raw: &RawShortMessage, b: [u8; 3], repr: u8) -> Result<Res3, Panicked> {
-    let r_cc = api(L::cc14_feed, || with_repr!(*raw, b, repr, |m| s.cc.feed(m)))?;
-    let r_pn = api(L::pn_feed, || with_repr!(*raw, b, repr, |m| s.pn.feed(m)))?;
-    let r_po = api(L::polling_feed, || with_repr!(*raw, b, repr, |m| s.po.feed(m)))?;
+    feed_scn_on(false, s, raw, b, repr)
+}
+
+/// `hop`: every one of the three calls runs on another OS thread (see `apimon::api_hop`).
+fn feed_scn_on(hop: bool, s: &mut Scn, raw: &RawShortMessage, b: [u8; 3], repr: u8) -> Result<Res3, Panicked> {
+    let r_cc = api_on(hop, L::cc14_feed, || with_repr!(*raw, b, repr, |m| s.cc.feed(m)))?;
+    let r_pn = api_on(hop, L::pn_feed, || with_repr!(*raw, b, repr, |m| s.pn.feed(m)))?;
+    let r_po = api_on(hop, L::polling_feed, || with_repr!(*raw, b, repr, |m| s.po.feed(m)))?;
     Ok((r_cc, r_pn, r_po))
 }
 
@@ -317,6 +322,8 @@ pub struct Exec<'a> {
     w_c16: bool,
     w_c17_reset_inflight: bool,
     w_c17: bool,
+    /// number of upcoming calls on the main instance that run on another OS thread
+    hop: u32,
 }
 
 const MAX_GROUPS: usize = 1 << 16;
@@ -333,13 +340,13 @@ fn timeout_class(t: Duration) -> usize {
 
 impl<'a> Exec<'a> {
     pub fn run(trace: &'a Trace) -> RunResult {
-        let clock_reads_before = clk::clock_reads();
+        let clock_reads_before = clk::clock_reads().wrapping_add(apimon::foreign_clock_reads());
         let calls_before = apimon::calls();
         let allocs_before = apimon::allocs_in_api();
         clk::set_now(Duration::ZERO);
         clk::set_read_step(dur(trace.read_step_ns));
         crate::simclock::set_read_step(dur(trace.read_step_ns));
-        let direct_before = crate::simclock::direct_reads();
+        let direct_before = crate::simclock::direct_reads() + apimon::foreign_direct_reads();
         let timeout = dur(trace.timeout_ns);
         let mut sink = Sink::new();
         let init = (|| -> Result<(Scn, Vec<Scn>, Scn), Panicked> {
@@ -396,6 +403,7 @@ impl<'a> Exec<'a> {
             w_c16: false,
             w_c17_reset_inflight: false,
             w_c17: false,
+            hop: 0,
         };
         e.p.runs = 1;
         e.p.timeout_class_runs[e.timeout_class] += 1;
@@ -455,8 +463,8 @@ impl<'a> Exec<'a> {
             }
         }
         let _ = allocs_before;
-        e.p.clock_reads = clk::clock_reads().wrapping_sub(clock_reads_before);
-        e.p.direct_clock_reads = crate::simclock::direct_reads() - direct_before;
+        e.p.clock_reads = clk::clock_reads().wrapping_add(apimon::foreign_clock_reads()).wrapping_sub(clock_reads_before);
+        e.p.direct_clock_reads = crate::simclock::direct_reads() + apimon::foreign_direct_reads() - direct_before;
         let calls = apimon::calls();
         for i in 0..apimon::N_LABELS {
             e.p.api_calls[i] = calls[i] - calls_before[i];
@@ -531,6 +539,17 @@ impl<'a> Exec<'a> {
         let ok = a == is_cc14_cn(n) && b == if n < 32 { Some(n + 32) } else { None } && c == is_pn_cn(n);
         self.sink.check(R::C16_predicate, ok, || format!("controller {}: can_be_part_of_14_bit={} corresponding_lsb={:?} is_parameter_number={}", n, a, b, c));
         Ok(())
+    }
+
+    /// Does the next call on the main instance run on another OS thread?
+    fn take_hop(&mut self) -> bool {
+        if self.hop > 0 {
+            self.hop -= 1;
+            self.p.calls_on_another_thread += 1;
+            true
+        } else {
+            false
+        }
     }
 
     /// Time may have passed inside the calls of this step (clock read step): adopt the hook clock.
@@ -631,6 +650,11 @@ impl<'a> Exec<'a> {
             Ev::Fork { k, burst } => self.do_fork(*k, burst),
             Ev::Repeat { .. } => Ok(()),
             Ev::Snapshot => self.do_snapshot(),
+            Ev::Hop { n } => {
+                self.p.thread_hop_windows += 1;
+                self.hop = *n as u32;
+                Ok(())
+            }
             Ev::Restore => self.do_restore(),
         }
     }
@@ -775,8 +799,9 @@ impl<'a> Exec<'a> {
             self.p.rec_cells[self.obs.ch[c].st.class() * 9 + 8] += 1;
         }
         let timeout = self.timeout;
+        let hop = self.take_hop();
         let m = &mut self.main;
-        api(L::scanner_reset, || {
+        api_on(hop, L::scanner_reset, || {
             m.cc.reset();
             m.pn.reset();
             m.po.reset();
@@ -1002,11 +1027,12 @@ impl<'a> Exec<'a> {
         self.p.polls += 1;
         self.p.channels_used[c as usize] += 1;
         let chn = api(L::newtype_conversions, || Channel::new(c))?;
+        let hop = self.take_hop();
         let m = &mut self.main;
         let before = api(L::scanner_copy, || m.po)?;
         let t0 = self.now;
         clk::set_now(t0);
-        let r = api(L::polling_poll, || m.po.poll(chn))?;
+        let r = api_on(hop, L::polling_poll, || m.po.poll(chn))?;
         self.span = Span { a: t0, b: clk::now() };
         let unchanged = api(L::scanner_eq, || before == m.po)?;
         let img = match r.as_ref() {
@@ -1212,7 +1238,8 @@ impl<'a> Exec<'a> {
         let before = api(L::scanner_copy, || self.main)?;
         let t0 = self.now;
         clk::set_now(t0);
-        let (r_cc, r_pn, r_po) = feed_scn(&mut self.main, &raw, b, repr)?;
+        let hop = self.take_hop();
+        let (r_cc, r_pn, r_po) = feed_scn_on(hop, &mut self.main, &raw, b, repr)?;
         self.span = Span { a: t0, b: clk::now() };
         let i_cc = match r_cc.as_ref() {
             Some(x) => Some(api(L::cc14_accessors, || c14_img(x))?),
